@@ -18,9 +18,8 @@ func init() {
 	register(&Rule{ID: "P-JSON-LITERAL", Props: []string{"C16", "C04", "C05", "C08"}, Floor: 3,
 		Doc: "a backtick literal is decoded from the text with every escaped backtick replaced (strings.ReplaceAll), by a json.Decoder on which UseNumber is called before Decode, and a success is returned only after Decoder.Token reported io.EOF (nothing follows the value); json.Unmarshal is used only into *string or *json.Number",
 		Run: rulePJSONLiteral})
-	register(&Rule{ID: "P-ESCAPE-TABLE", Props: []string{"C16", "C04", "C11"}, Floor: 3,
-		Doc: "raw strings unescape exactly \\' and \\\\ and keep every other backslash sequence verbatim; quoted identifiers decode exactly the JSON escapes \\\" \\/ \\\\ \\b \\f \\n \\r \\t and \\uXXXX (with surrogate pairs) and reject every other escape",
-		Run: rulePEscapeTable})
+	// P-ESCAPE-TABLE (retired): subsumed by P-DECODE, which interprets the decoders on symbolic texts (rules_sdom.go)
+	_ = rulePEscapeTable
 	register(&Rule{ID: "E-CLAMP-SIBLINGS", Props: []string{"C12"}, Floor: 0,
 		Doc: "the array form and the string form of the slice clamping (start/stop normalisation and element count) are the same decisions: the two sibling copies in slice and in sliceStep agree condition by condition",
 		Run: ruleEClampSiblings})
